@@ -17,7 +17,8 @@ Inductive meth :=
 | MAdd | MAddList | MGet | MGetList | MClear | MSetDefault | MSetItem | MGetItem | MDelItem
 | MPop | MPopAll | MPopItem | MPopLast
 | MUpdate | MUpdateExtend | MIOr
-| MIterItems | MIterKeys | MIterValues | MReversed | MKeys | MValues | MItems | MIter.
+| MIterItems | MIterKeys | MIterValues | MReversed | MKeys | MValues | MItems | MIter
+| MGetState | MSetState | MCopy | MInverted | MCounts | MSorted | MToDict.
 
 Inductive pv :=
 | VTok (n : nat) | VMissing | VBool (b : bool) | VCell (a : nat)
@@ -26,7 +27,8 @@ Inductive pv :=
    (VArg), E as ANOTHER OrderedMultiDict given by its state (VOtherObj), the keyword mapping F (VKw);
    an iterator of pairs; a local set; the object itself as a return value *)
 | VArg (a : arg) | VOtherObj (q : pomd) | VKw (m : pairs) | VPairs (l : pairs) | VSet (l : list nat) | VSelfObj
-| VNat (n : nat) | VDict (d : list (nat * nat)).      (* an int; a local dict of ints (lengths in __reversed__) *)
+| VNat (n : nat) | VDict (d : list (nat * nat))       (* an int; a local dict of ints (lengths in __reversed__) *)
+| VKeyFn (f : keyfn) | VMulti (l : list (K * list V)).   (* a sort key function; a plain dict of lists *)
 
 Inductive ex :=
 | EVar (x : nat) | ENone | EMissing | ERoot
@@ -64,7 +66,12 @@ Inductive ex :=
 | ENotIs (a b : ex)                            (* a is not b, on cells *)
 | ELen (e : ex) | EEqNat (a b : ex)            (* len(e) / a == b on ints *)
 | EDictNew                                     (* {} *)
-| EYieldedToks | EYieldedPairs.                (* what the generator has yielded (its value as a list) *)
+| EYieldedToks | EYieldedPairs                 (* what the generator has yielded (its value as a list) *)
+| ENewFrom (e : ex)                            (* self.__class__(e): a new object built from pairs (the constructor
+                                                  itself is the model's pm_from_pairs; an unhashable key raises) *)
+| EComp1 (multi : bool) (x : nat) (src a b : ex)   (* ((a, b) for x in src) / {a: b for x in src} *)
+| EComp2 (x y : nat) (src a b : ex)            (* ((a, b) for x, y in src) *)
+| ESorted (e k r : ex).                        (* sorted(e, key=k, reverse=r) *)
 
 Inductive stmt :=
 | SPass | SSeq (a b : stmt) | SAssign (x : nat) (e : ex) | SExpr (e : ex)
@@ -342,6 +349,111 @@ Section Interp.
             (Ok (VPairs (map (fun k => (k, match d_get m k with Some v => v | None => none_tok end)) (map fst m))), s1)
         | (Ok _, s1) => raise type_error s1
         | r => r
+        end
+    | ENewFrom a =>
+        match eval en a s with
+        | (Ok (VPairs l), s1) =>
+            if existsb unhashable (map fst l) then raise TypeError s1
+            else (Ok (VOtherObj (pm_from_pairs l)), s1)
+        | (Ok _, s1) => raise type_error s1
+        | r => r
+        end
+    | EComp1 multi x src a b =>
+        match eval en src s with
+        | (Ok (VToks l), s1) =>
+            if multi then
+              match (fix go (l : list nat) (s0 : pomd) {struct l} : res (list (K * list V)) * pomd :=
+                       match l with
+                       | [] => (Ok [], s0)
+                       | t :: r =>
+                           match eval (env_set en x (VTok t)) a s0 with
+                           | (Ok (VTok ka), s2) =>
+                               match eval (env_set en x (VTok t)) b s2 with
+                               | (Ok (VToks vb), s3) =>
+                                   match go r s3 with
+                                   | (Ok rest, s4) => (Ok ((ka, vb) :: rest), s4)
+                                   | (Raise x0, s4) => (Raise x0, s4)
+                                   end
+                               | (Ok _, s3) => (Raise type_error, s3)
+                               | (Raise x0, s3) => (Raise x0, s3)
+                               end
+                           | (Ok _, s2) => (Raise type_error, s2)
+                           | (Raise x0, s2) => (Raise x0, s2)
+                           end
+                       end) l s1 with
+              | (Ok r, s5) => (Ok (VMulti r), s5)
+              | (Raise x0, s5) => (Raise x0, s5)
+              end
+            else
+              match (fix go (l : list nat) (s0 : pomd) {struct l} : res pairs * pomd :=
+                       match l with
+                       | [] => (Ok [], s0)
+                       | t :: r =>
+                           match eval (env_set en x (VTok t)) a s0 with
+                           | (Ok (VTok ka), s2) =>
+                               match eval (env_set en x (VTok t)) b s2 with
+                               | (Ok (VTok vb), s3) | (Ok (VNat vb), s3) =>
+                                   match go r s3 with
+                                   | (Ok rest, s4) => (Ok ((ka, vb) :: rest), s4)
+                                   | (Raise x0, s4) => (Raise x0, s4)
+                                   end
+                               | (Ok _, s3) => (Raise type_error, s3)
+                               | (Raise x0, s3) => (Raise x0, s3)
+                               end
+                           | (Ok _, s2) => (Raise type_error, s2)
+                           | (Raise x0, s2) => (Raise x0, s2)
+                           end
+                       end) l s1 with
+              | (Ok r, s5) => (Ok (VPairs r), s5)
+              | (Raise x0, s5) => (Raise x0, s5)
+              end
+        | (Ok _, s1) => raise type_error s1
+        | r => r
+        end
+    | EComp2 x y src a b =>
+        match eval en src s with
+        | (Ok (VPairs l), s1) =>
+            match (fix go (l : pairs) (s0 : pomd) {struct l} : res pairs * pomd :=
+                     match l with
+                     | [] => (Ok [], s0)
+                     | (t, u) :: r =>
+                         let en' := env_set (env_set en x (VTok t)) y (VTok u) in
+                         match eval en' a s0 with
+                         | (Ok (VTok ka), s2) =>
+                             match eval en' b s2 with
+                             | (Ok (VTok vb), s3) =>
+                                 match go r s3 with
+                                 | (Ok rest, s4) => (Ok ((ka, vb) :: rest), s4)
+                                 | (Raise x0, s4) => (Raise x0, s4)
+                                 end
+                             | (Ok _, s3) => (Raise type_error, s3)
+                             | (Raise x0, s3) => (Raise x0, s3)
+                             end
+                         | (Ok _, s2) => (Raise type_error, s2)
+                         | (Raise x0, s2) => (Raise x0, s2)
+                         end
+                     end) l s1 with
+            | (Ok r, s5) => (Ok (VPairs r), s5)
+            | (Raise x0, s5) => (Raise x0, s5)
+            end
+        | (Ok _, s1) => raise type_error s1
+        | r => r
+        end
+    | ESorted a k r =>
+        match eval en a s with
+        | (Ok (VPairs l), s1) =>
+            match eval en k s1 with
+            | (Ok (VKeyFn f), s2) =>
+                match eval en r s2 with
+                | (Ok (VBool rv), s3) => (Ok (VPairs (py_sorted (kf_item f) rv l)), s3)
+                | (Ok _, s3) => raise type_error s3
+                | r0 => r0
+                end
+            | (Ok _, s2) => raise type_error s2
+            | r0 => r0
+            end
+        | (Ok _, s1) => raise type_error s1
+        | r0 => r0
         end
     | ETrue => (Ok (VBool true), s)
     | EFalse => (Ok (VBool false), s)
